@@ -212,6 +212,9 @@ def alphabet(dt, rich):
     A.append(L.tick(dt, "Q", [tx([["C", 0, None], ["C", 0, None]])]))  # second one must be rejected
     A.append(L.tick(dt, "Q", [tx([], [0])]))
     A.append(L.tick(dt, "SUS", [tx([REQ["good"], ["C", 0, None]])]))
+    # the strategy's own code raises inside the `with` block after requests were accepted: the transaction still ends
+    A.append(L.tick(dt, "Q", [["TXR", [list(REQ["good"])]]]))
+    A.append(L.tick(dt, "Q", [["TXR", [["C", 0, None], list(REQ["good2"])]]]))
     return A
 
 
